@@ -203,9 +203,10 @@ func runC12(r *ev.Recorder) {
 		switch c.Kind {
 		case "string":
 			b, _ := hex.DecodeString(c.Hex)
-			what = fmt.Sprintf("Lit(%q) in context %s: %s", string(b), c12Contexts[c.Ctx%len(c12Contexts)].name, msg)
 			if c.Ctx < 0 {
 				what = fmt.Sprintf("Lit(%q) formatted: %s", string(b), msg)
+			} else {
+				what = fmt.Sprintf("Lit(%q) in context %s: %s", string(b), c12Contexts[c.Ctx%len(c12Contexts)].name, msg)
 			}
 		case "rune":
 			what = fmt.Sprintf("LitRune(%U): %s", c.Rune, msg)
